@@ -4,6 +4,7 @@ from . import core
 TRANSLATORS = [
     ("Grammar.lean", ["gramdump"]),
     ("MemoryFacts.lean", ["memfacts"]),
+    ("LexFacts.lean", ["lexfacts"]),
 ]
 
 
